@@ -45,4 +45,14 @@ CHECKS = {
         ref="§4 C19, §4a-C",
         note=_NOTE,
         technique="TLC model checking of the macro state machine + replay of all TLC-generated programs into the real macros + trace validation"),
+    "C15": dict(
+        text="The byte-wise state update of the generator is transcribed as coded (model/Drbg, reduced widths) and TLC "
+             "checks V' = (V+H+C+reseed_counter) mod 2^seedlen for all corner V/C/H and counters up to 2^24. The real "
+             "generator is run on call histories (instantiate/reseed/generate of every length class incl. refused requests, "
+             "injected state corners, integer sampling, seeded random histories; thorough: a 33000-call history) with every "
+             "internal SHA-256 call intercepted; TLC steps the SP 800-90A Hash_DRBG machine (model/DrbgSpec) over the trace: "
+             "each hash input must be the prescribed one, outputs and (V,C,counter) must follow from the bound digests.",
+        ref="§4 C15, §4a-D",
+        note=_NOTE + " SHA-256 outputs are bound from the trace (their correctness is C14).",
+        technique="TLC model checking of the coded state update + TLC trace validation of structural DRBG traces (ld --wrap) against the Hash_DRBG state machine"),
 }
